@@ -1,4 +1,6 @@
 import Ledger.Driver.CtrlJson
+import Ledger.Ctrl.Import
+import Ledger.Ctrl.Spec
 
 /-!
 Controller driver, part 2: handler "ctrlhist" — fold the controller model over a
@@ -30,6 +32,11 @@ structure FoldSt where
   sigs : List (String × String) := []
   committedTx : Nat := 0
   nontrivial : Bool := false
+  /-- ops go through the state tracker (`facadeWrite`); traces are then not compared -/
+  facade : Bool := false
+  inUse : Bool := false
+  /-- chart tables of the schema versions inserted so far (from the ops' oracles) -/
+  charts : List (String × List (String × Meta)) := []
 
 def opTag (inp : Json) : String := optStrField inp "k"
 
@@ -56,10 +63,54 @@ def traceDiscipline (tr : List String) : String :=
   else if begun ≠ ended then "transaction-not-closed"
   else ""
 
+def maxKey (l : List (Nat × Json)) : Nat := l.foldl (fun m e => if m < e.1 then e.1 else m) 0
+
+def jsonStr (j : Json) (k : String) : String := optStrField j k
+
+/-- Distinct non-empty values of a string column. -/
+def distinctNonEmpty (l : List String) : Bool :=
+  let xs := l.filter (· ≠ "")
+  xs.length == (xs.foldl (fun (acc : List String) x => if acc.contains x then acc else x :: acc) []).length
+
+/-- C17 / C18 on a REAL snapshot: accounts and transaction metadata equal the
+    reference reading (`specOf`) of the REAL journal. -/
+def specCheck (charts : List (String × List (String × Meta))) (real : Tables) : Except String (List (String × String)) := do
+  let chartOf (v : String) : List (String × Meta) := (charts.lookup v).getD []
+  let logs ← real.logs.mapM (fun e => logOfJson chartOf e.2)
+  let sp := specOf logs
+  let accs ← real.accounts.mapM (fun e => accountOfJson e.2)
+  let mut fails : List (String × String) := []
+  -- C18: same set of accounts
+  let specAddrs := sp.accounts.map (·.1)
+  let realAddrs := accs.map (·.1)
+  if specAddrs != realAddrs then
+    fails := fails ++ [("C18", s!"accounts listed {realAddrs} but the journal involves {specAddrs}")]
+  for (a, r) in accs do
+    match sp.accounts.lookup a with
+    | none => pure ()
+    | some x =>
+      if x.metadata != r.metadata then
+        fails := fails ++ [("C17", s!"account {a}: metadata differs from the fold of the journal")]
+      if x.firstUsage != r.firstUsage then
+        fails := fails ++ [("C18", s!"account {a}: first usage {r.firstUsage} but the journal says {x.firstUsage}")]
+      if x.insertionDate != r.insertionDate then
+        fails := fails ++ [("C18", s!"account {a}: insertion date {r.insertionDate} but the journal says {x.insertionDate}")]
+  for (id, row) in real.txs do
+    let m ← metaField row "meta"
+    match sp.txMeta.lookup id with
+    | some x => if x != m then fails := fails ++ [("C17", s!"transaction {id}: metadata differs from the fold of the journal")]
+    | none => fails := fails ++ [("C17", s!"transaction {id} is not in the journal")]
+  pure fails
+
 def stepHist (strict : Bool) (fs : FoldSt) (inp out : Json) : Except String FoldSt := do
   if fs.mismatch.isSome then return { fs with i := fs.i + 1 } else
   let op ← opOfJson inp out
-  let o := forgeLog strict op none false fs.state
+  let o : Outcome :=
+    if fs.facade then
+      let (l, r) := facadeWrite strict { state := fs.state, inUse := fs.inUse } op
+      { state := l.state, resp := r, trace := [] }
+    else forgeLog strict op none false fs.state
+  let inUse' := if fs.facade then (facadeWrite strict { state := fs.state, inUse := fs.inUse } op).1.inUse else fs.inUse
   let resp ← field out "resp"
   let delta ← field out "delta"
   let real' ← applyDelta fs.real delta
@@ -71,7 +122,7 @@ def stepHist (strict : Bool) (fs : FoldSt) (inp out : Json) : Except String Fold
   let mResp := jResp o.resp
   let rResp := realResp resp
   if mResp != rResp then return mk "resp" mResp rResp else
-  if o.trace != realTrace then return mk "trace" (jStrs o.trace) (jStrs realTrace) else
+  if !fs.facade && o.trace != realTrace then return mk "trace" (jStrs o.trace) (jStrs realTrace) else
   let mSeq := Json.arr #[jNat o.state.seq.tx, jNat o.state.seq.log]
   if mSeq != Json.arr seqJ.toArray then return mk "seq" mSeq (Json.arr seqJ.toArray) else
   let mTabs := tablesOfDb o.state.db
@@ -88,15 +139,66 @@ def stepHist (strict : Bool) (fs : FoldSt) (inp out : Json) : Except String Fold
   if (failed || dry || rHit) && !deltaEmpty delta then
     pf := pf ++ [("C07", fs.i, "failed/dry-run/idempotent write changed the snapshot")]
   if !outOk then pf := pf ++ [("C08", fs.i, "returned output differs from the returned log's payload")]
-  let disc := traceDiscipline realTrace
+  let disc := if fs.facade then "" else traceDiscipline realTrace
   if disc ≠ "" then
     if rErr = "panic" && disc = "transaction-not-closed" then
       sigs := sigs ++ [("C07", "C07:revert-nil-balance-panic-leaves-transaction-open")]
     else pf := pf ++ [("C07", fs.i, "handle discipline: " ++ disc)]
+  let effective := !failed && !dry && !rHit
+  -- C08: exactly one new log per effective write, none otherwise; its id is the answered one
+  let newLogs := real'.logs.filter (fun e => !(fs.real.logs.any (·.1 == e.1)))
+  let respLogId : Option Nat := match optField resp "log" with
+    | some l => (match natField l "id" with | .ok n => some n | .error _ => none)
+    | none => none
+  if effective then
+    if newLogs.length ≠ 1 then pf := pf ++ [("C08", fs.i, s!"successful write added {newLogs.length} logs")]
+    else if some (newLogs.map (·.1)).head! ≠ respLogId then
+      pf := pf ++ [("C08", fs.i, "the new log's id is not the id the write answered")]
+  else if !newLogs.isEmpty then pf := pf ++ [("C08", fs.i, "a log was written by a failed / dry-run / idempotent write")]
+  if real'.logs.length ≠ fs.real.logs.length + newLogs.length then
+    pf := pf ++ [("C08", fs.i, "an existing log row was rewritten")]
+  -- C16 / C08: new ids above every existing id
+  let newTxs := real'.txs.filter (fun e => !(fs.real.txs.any (·.1 == e.1)))
+  if newLogs.any (fun e => e.1 ≤ maxKey fs.real.logs) then
+    pf := pf ++ [("C16", fs.i, "new log id not above the existing ones"), ("C08", fs.i, "new log id not above the existing ones")]
+  if newTxs.any (fun e => e.1 ≤ maxKey fs.real.txs) then
+    pf := pf ++ [("C16", fs.i, "new transaction id not above the existing ones")]
+  -- C13: idempotency keys
+  let ik := optStrField inp "ik"
+  if ik ≠ "" then
+    match fs.real.logs.find? (fun e => jsonStr e.2 "ik" == ik) with
+    | some (_, l) =>
+      if jsonStr l "ih" == optStrField out "ih" then
+        if !(rHit && !failed && optField resp "log" == some l && deltaEmpty delta) then
+          pf := pf ++ [("C13", fs.i, "same key + same input did not return the original log as a hit without effect")]
+      else if !(rErr == "invalid-idempotency-input" && deltaEmpty delta) then
+        pf := pf ++ [("C13", fs.i, "same key + different input was not refused as a validation error")]
+    | none =>
+      if rHit then pf := pf ++ [("C13", fs.i, "idempotency hit without a log carrying the key")]
+      if effective && !(newLogs.all (fun e => jsonStr e.2 "ik" == ik)) then
+        pf := pf ++ [("C13", fs.i, "the new log does not carry the idempotency key")]
+  if !distinctNonEmpty (real'.logs.map (fun e => jsonStr e.2 "ik")) then
+    pf := pf ++ [("C13", fs.i, "two logs carry the same idempotency key")]
+  -- C14: references
+  if !distinctNonEmpty (real'.txs.map (fun e => jsonStr e.2 "ref")) then
+    pf := pf ++ [("C14", fs.i, "two transactions carry the same reference")]
+  let ref := optStrField inp "ref"
+  if ref ≠ "" && (opTag inp).startsWith "create" && fs.real.txs.any (fun e => jsonStr e.2 "ref" == ref) then
+    if !failed && !rHit then pf := pf ++ [("C14", fs.i, "a create reusing a reference did not fail")]
+  -- C17 / C18: the tables equal the reference reading of the journal
+  let charts := if effective && opTag inp = "insertSchema" then
+      fs.charts ++ [(optStrField inp "version", (chartTableOf out).toOption.getD [])] else fs.charts
+  for (p, w) in (← specCheck charts real') do pf := pf ++ [(p, fs.i, w)]
+  -- C18: insertion dates never change
+  for (a, row) in real'.accounts do
+    match fs.real.accounts.lookup a with
+    | some old => if (old.getObjVal? "ins").toOption != (row.getObjVal? "ins").toOption then
+        pf := pf ++ [("C18", fs.i, s!"insertion date of {a} changed")]
+    | none => pure ()
   let tag := opTag inp ++ ":" ++ (if failed then rErr else if rHit then "hit" else if dry then "dry" else "ok")
   let committedTx := fs.committedTx + (if !failed && !dry && !rHit && (opTag inp).startsWith "create" then 1 else 0)
   return { fs with state := o.state, real := real', i := fs.i + 1, tags := fs.tags ++ [tag], propFail := pf,
-                   sigs := sigs, committedTx := committedTx }
+                   sigs := sigs, committedTx := committedTx, inUse := inUse', charts := charts }
 
 def dedup (l : List String) : List String := l.foldl (fun acc x => if acc.contains x then acc else acc ++ [x]) []
 
@@ -122,10 +224,252 @@ def handleHist : Handler := fun inp out => do
          nontrivial := fs.committedTx ≥ 2,
          tags := dedup fs.tags ++ [if strict then "mode:strict" else "mode:audit"],
          note := note,
-         sig := if fails.isEmpty then ", ".intercalate sigs else "" }
+         sig := if fails.isEmpty then sigs.headD "" else "" }
+
+/-! ### handler "ctrlfault" -/
+
+def faultOfJson (j : Json) : Except String (Option Fault × Bool) := do
+  let kind ← strField j "kind"
+  if kind = "commit" then pure (none, true) else
+  let k ← natField j "at"
+  let fk ← (if kind = "error" then pure FaultKind.error
+            else if kind = "deadlock" then pure FaultKind.deadlock
+            else if kind = "cancel" then pure FaultKind.cancel
+            else throw s!"unknown fault kind {kind}")
+  pure (some { at_ := k, kind := fk }, false)
+
+/-- The store call a real trace entry names (second word). -/
+def entryMethod (e : String) : String :=
+  match e.splitOn " " with
+  | _ :: m :: _ => m
+  | _ => ""
+
+def handleFault : Handler := fun inp out => do
+  let strict := boolFieldD inp "strict"
+  let want := optStrField inp "prop"
+  let pre ← arrField inp "prefix"
+  let preOut ← arrField out "prefix"
+  if pre.length ≠ preOut.length then throw "prefix / outputs length mismatch"
+  let fs ← (pre.zip preOut).foldlM (fun fs (i, o) => stepHist strict fs i o) ({} : FoldSt)
+  let opIn ← field inp "op"
+  let base ← field out "base"
+  let runs ← arrField out "runs"
+  let kindTag := opTag opIn
+  let mut mismatch := fs.mismatch
+  let mut fails : List String := []
+  let mut tags : List String := ["op:" ++ kindTag]
+  let mut fired := 0
+  -- one comparison of the model with a real run from the prefix state
+  let compare (f : Option Fault) (cf : Bool) (real : Json) (label : String) : Except String (Option Mismatch) := do
+    let op ← opOfJson opIn real
+    let o := forgeLog strict op f cf fs.state
+    let resp ← field real "resp"
+    let delta ← field real "delta"
+    let real' ← applyDelta fs.real delta
+    let realTrace ← strArrField real "trace"
+    let seqJ ← arrField real "seq"
+    let mResp := jResp o.resp
+    let rResp := realResp resp
+    let mk (fld : String) (m r : Json) : Option Mismatch :=
+      some { op := pre.length, field := label ++ ":" ++ fld, model := m, real := r }
+    if mResp != rResp then return mk "resp" mResp rResp
+    if o.trace != realTrace then return mk "trace" (jStrs o.trace) (jStrs realTrace)
+    let mSeq := Json.arr #[jNat o.state.seq.tx, jNat o.state.seq.log]
+    if mSeq != Json.arr seqJ.toArray then return mk "seq" mSeq (Json.arr seqJ.toArray)
+    let mTabs := tablesOfDb o.state.db
+    let d := mTabs.diff real'
+    if d ≠ "" then return mk ("snapshot." ++ d) mTabs.toJson real'.toJson
+    return none
+  if mismatch.isNone then mismatch ← compare none false base "base"
+  let baseErr := optStrField (← field base "resp") "err"
+  tags := tags ++ ["base:" ++ (if baseErr = "" then "ok" else baseErr)]
+  for r in runs do
+    let fj ← field r "fault"
+    let (f, cf) ← faultOfJson fj
+    let real ← field r "out"
+    let label := s!"fault {fj.compress}"
+    if mismatch.isNone then mismatch ← compare f cf real label
+    -- C07 on the real outputs
+    let resp ← field real "resp"
+    let rErr := if optStrField resp "panic" ≠ "" then "panic" else optStrField resp "err"
+    let delta ← field real "delta"
+    let didFire := boolFieldD r "fired"
+    if didFire then fired := fired + 1
+    let fk := optStrField fj "kind"
+    if rErr ≠ "" && !deltaEmpty delta then
+      fails := fails ++ [s!"{label}: failed write changed the snapshot"]
+    if didFire && fk = "commit" && rErr = "" then
+      fails := fails ++ [s!"{label}: COMMIT failed but the write answered success"]
+    if didFire && (fk = "error" || fk = "cancel") && rErr = "" && !boolFieldD opIn "dry" then
+      -- a non-retryable failure may only be swallowed when it hit a Rollback
+      let tr ← strArrField real "trace"
+      let hit := tr.filter (fun e => (e.splitOn " !").length > 1 &&
+        (e.endsWith "!injected" || e.endsWith "!canceled"))
+      if !(hit.all (fun e => entryMethod e = "Rollback")) then
+        fails := fails ++ [s!"{label}: store failure swallowed"]
+    if didFire && fk = "deadlock" && rErr = "deadlock" then
+      -- a deadlock is retried unless it hit BeginTX, the idempotency-key read, or Commit
+      let tr ← strArrField real "trace"
+      let hit := (tr.filter (·.endsWith "!deadlock")).map entryMethod
+      if !(hit.all (fun m => m = "BeginTX" || m = "ReadLogWithIdempotencyKey" || m = "Commit")) then
+        fails := fails ++ [s!"{label}: deadlock inside the operation was not retried"]
+    let disc := traceDiscipline (← strArrField real "trace")
+    if disc ≠ "" then fails := fails ++ [s!"{label}: handle discipline: {disc}"]
+    tags := tags ++ [s!"{fk}:" ++ (if !didFire then "not-reached" else if rErr = "" then "ok" else rErr)]
+  let sel (p : String) : Bool := want = "" || p = want
+  let selFails := if sel "C07" then fails else []
+  pure { model := match mismatch with | some m => m.toJson | none => Json.null,
+         agree := mismatch.isNone, prop := selFails.isEmpty, propModel := true,
+         nontrivial := fired ≥ 3 && baseErr = "",
+         tags := dedup tags, note := "; ".intercalate (selFails.take 5) }
+
+/-! ### handler "ctrlimport" -/
+
+def importErrClass : Option ImportErr → String
+  | none => ""
+  | some .notInitializing => "import"
+  | some (.alreadyExists _) => "import"
+  | some (.failed _ e) => e.toString
+
+/-- Which columns of the accounts differ between two real snapshots (by address). -/
+def accountsDiff (a b : List (String × Json)) : List String :=
+  let cols := ["meta", "fu", "ins", "upd"]
+  dedup (a.foldl (fun acc (k, ra) =>
+    match b.lookup k with
+    | none => acc ++ ["missing"]
+    | some rb => acc ++ cols.filter (fun c => (ra.getObjVal? c).toOption != (rb.getObjVal? c).toOption)) []
+    ++ (if a.length ≠ b.length then ["count"] else []))
+
+def handleImport : Handler := fun inp out => do
+  let strict := boolFieldD inp "strict"
+  let want := optStrField inp "prop"
+  let variant ← strField inp "variant"
+  let k ← natField inp "k"
+  let ops ← arrField inp "ops"
+  let srcOut ← arrField out "src"
+  if ops.length ≠ srcOut.length then throw "ops / outputs length mismatch"
+  -- 1. source history through the state tracker
+  let fs ← (ops.zip srcOut).foldlM (fun fs (i, o) => stepHist strict fs i o) ({ facade := true } : FoldSt)
+  let mut mismatch := fs.mismatch
+  let mk (f : String) (m r : Json) : Option Mismatch := some { op := ops.length, field := f, model := m, real := r }
+  let srcReal ← applyDelta {} (← field out "srcSnap")
+  if mismatch.isNone && (tablesOfDb fs.state.db).diff srcReal ≠ "" then
+    mismatch := mk "srcSnap" (tablesOfDb fs.state.db).toJson srcReal.toJson
+  -- 2. export
+  let logs := exportLogs fs.state
+  let realExported ← arrField out "exported"
+  if mismatch.isNone && Json.arr (logs.map jLog).toArray != Json.arr realExported.toArray then
+    mismatch := mk "exported" (Json.arr (logs.map jLog).toArray) (Json.arr realExported.toArray)
+  -- 3. import steps on a fresh ledger
+  let kk := min k logs.length
+  let streams : List (List Log) :=
+    if variant = "ok" then [logs]
+    else if variant = "twoParts" then [logs.take kk, logs.drop kk]
+    else if variant = "inUse" then [logs]
+    else if variant = "twice" then [logs, logs]
+    else [logs.take kk ++ logs.take 1]
+  let mut dst : Ledger := {}
+  let mut dstFs : FoldSt := { facade := true }
+  let mut fails : List (String × String) := []
+  let mut sigs : List (String × String) := []
+  let mut tags : List String := ["variant:" ++ variant]
+  if variant = "inUse" then
+    match optField inp "pre", optField out "preOut" with
+    | some pre, some preOut =>
+      dstFs ← stepHist strict dstFs pre preOut
+      if mismatch.isNone then mismatch := dstFs.mismatch.map (fun m => { m with field := "pre:" ++ m.field })
+      dst := { state := dstFs.state, inUse := dstFs.inUse }
+    | _, _ => throw "variant inUse without pre op"
+  let steps ← arrField out "steps"
+  if steps.length ≠ streams.length then throw "import steps mismatch"
+  let nowBase := (ops.length + 5 + 1) * 10000000 + 1704067200000000
+  let mut stepNo := 0
+  let mut before : Tables := dstFs.real
+  for (stream, st) in streams.zip steps do
+    let (dst', e) := facadeImport (Int.ofNat nowBase + stepNo * 1000000) dst stream
+    let rErr := optStrField st "err"
+    let real ← applyDelta {} (← field st "snap")
+    let seqJ ← arrField st "seq"
+    if mismatch.isNone then
+      if importErrClass e ≠ rErr then
+        mismatch := mk s!"import[{stepNo}].err" (importErrClass e) rErr
+      else if (tablesOfDb dst'.state.db).diff real ≠ "" then
+        mismatch := mk s!"import[{stepNo}].snapshot.{(tablesOfDb dst'.state.db).diff real}"
+          (tablesOfDb dst'.state.db).toJson real.toJson
+      else if Json.arr #[jNat dst'.state.seq.tx, jNat dst'.state.seq.log] != Json.arr seqJ.toArray then
+        mismatch := mk s!"import[{stepNo}].seq" (Json.arr #[jNat dst'.state.seq.tx, jNat dst'.state.seq.log]) (Json.arr seqJ.toArray)
+      else if (optStrField st "state" = "in-use") ≠ dst'.inUse then
+        mismatch := mk s!"import[{stepNo}].state" (toString dst'.inUse) (optStrField st "state")
+    tags := tags ++ [s!"import:{if rErr = "" then "ok" else rErr}"]
+    -- C12 on the real outputs
+    let changed := before.diff real ≠ ""
+    if rErr ≠ "" && changed then
+      if variant = "failAtK" && rErr = "import" then
+        sigs := sigs ++ [("C12", "C12:failed-import-keeps-earlier-logs")]
+      else fails := fails ++ [("C12", s!"rejected import (step {stepNo}) changed the ledger")]
+    if variant = "inUse" && rErr ≠ "import" then
+      fails := fails ++ [("C12", "import on an in-use ledger was not refused")]
+    if variant = "twice" && stepNo = 1 && rErr ≠ "import" && !logs.isEmpty then
+      fails := fails ++ [("C12", "re-import of existing log ids was not refused")]
+    if (variant = "ok" || variant = "twoParts") && rErr ≠ "" then
+      fails := fails ++ [("C11", s!"import of an exported stream failed: {rErr}")]
+    before := real
+    dst := dst'
+    stepNo := stepNo + 1
+  -- C11 / C08: the copy equals the source
+  if variant = "ok" || variant = "twoParts" then
+    let d := srcReal.diff before
+    if d ≠ "" then
+      if d = "accounts" then
+        let cols := accountsDiff srcReal.accounts before.accounts
+        let onlyDates := cols.all (fun c => c = "fu" || c = "upd")
+        if cols.contains "meta" then
+          sigs := sigs ++ [("C11", "C11:import-drops-chart-default-metadata"), ("C08", "C08:replay-drops-chart-default-metadata")]
+        if cols.contains "fu" || cols.contains "upd" then
+          sigs := sigs ++ [("C11", "C11:import-moves-account-dates"), ("C08", "C08:replay-moves-account-dates")]
+        if !(cols.contains "meta") && !onlyDates then
+          fails := fails ++ [("C11", s!"copy differs from source in accounts columns {cols}"), ("C08", s!"replay differs in accounts columns {cols}")]
+      else fails := fails ++ [("C11", s!"copy differs from source in {d}"), ("C08", s!"replay differs in {d}")]
+    tags := tags ++ [if d = "" then "copy:equal" else "copy:differs:" ++ d]
+  if !boolFieldD out "wireOk" then fails := fails ++ [("C11", "a log changed through the JSON wire encoding")]
+  -- 4. more writes on the copy
+  let extra ← arrField inp "extra"
+  let extraOut ← arrField out "extra"
+  if extra.length ≠ extraOut.length then throw "extra / outputs length mismatch"
+  let maxTx0 := maxKey before.txs
+  let maxLog0 := maxKey before.logs
+  let fs2 ← (extra.zip extraOut).foldlM (fun fs (i, o) => stepHist strict fs i o)
+    ({ facade := true, state := dst.state, inUse := dst.inUse, real := before, charts := fs.charts } : FoldSt)
+  -- on a copy that already differs from its source (findings above) the journal reading
+  -- of accounts cannot hold either: reported once, through the C11 / C08 signatures
+  let copyExact := (variant = "ok" || variant = "twoParts") && srcReal.diff before = ""
+  let fs2 := if copyExact then fs2 else
+    { fs2 with propFail := fs2.propFail.filter (fun (p, _, _) => p ≠ "C17" && p ≠ "C18") }
+  if mismatch.isNone then mismatch := fs2.mismatch.map (fun m => { m with field := "extra:" ++ m.field })
+  -- C11 ids continue: every new id is above every imported one
+  let newTx := fs2.real.txs.filter (fun e => !(before.txs.any (·.1 == e.1)))
+  let newLogs := fs2.real.logs.filter (fun e => !(before.logs.any (·.1 == e.1)))
+  if newTx.any (fun e => e.1 ≤ maxTx0) || newLogs.any (fun e => e.1 ≤ maxLog0) then
+    fails := fails ++ [("C11", "a write after the import reused an id at or below the imported ones"),
+                       ("C16", "a write after the import reused an id at or below the imported ones")]
+  tags := tags ++ [s!"extra-new-tx:{if newTx.isEmpty then "0" else "some"}"]
+  let sel (p : String) : Bool := want = "" || p = want
+  let selSigs := dedup ((sigs.filter (sel ·.1)).map (·.2))
+  let selFails := ((fs.propFail ++ fs2.propFail).filter (sel ·.1)).map (fun (p, i, w) => s!"{p} op {i}: {w}") ++
+    (fails.filter (sel ·.1)).map (fun (p, w) => s!"{p}: {w}")
+  pure { model := match mismatch with | some m => m.toJson | none => Json.null,
+         agree := mismatch.isNone, prop := selFails.isEmpty && selSigs.isEmpty, propModel := true,
+         nontrivial := logs.length ≥ 3,
+         tags := dedup tags,
+         note := if !selFails.isEmpty then "; ".intercalate (selFails.take 5)
+                 else if !selSigs.isEmpty then "known defect reproduced: " ++ ", ".intercalate selSigs else "",
+         -- one signature per verdict (known_findings matches it exactly): the first reproduced
+         sig := if selFails.isEmpty then selSigs.headD "" else "" }
 
 def handlers : List (String × Handler) := [
-  ("ctrlhist", handleHist)
+  ("ctrlhist", handleHist),
+  ("ctrlfault", handleFault),
+  ("ctrlimport", handleImport)
 ]
 
 end Ledger.Driver.Ctrl
